@@ -5,6 +5,7 @@ package main
 import (
 	"fmt"
 	"go/token"
+	"go/types"
 	"sort"
 	"strings"
 
@@ -219,13 +220,95 @@ func checkC10(c *Check) {
 	checkFreshDecode(c, "7/request-is-fresh")
 
 	// a sandboxed program cannot end the container init with a catchable signal
-	checkIgnoredSignals(c, "8/init-survives-signals", nil, []string{"SIGHUP", "SIGINT", "SIGTERM", "SIGQUIT", "SIGILL", "SIGTRAP", "SIGABRT", "SIGSYS"})
+	checkIgnoredSignals(c, "8/init-survives-signals", nil, goExitSignals)
 	c.Expect("8/init-survives-signals", 1)
 
 	// the handler of a running program and the container's wait goroutine cannot wait for each other: the handler's
 	// (unbuffered) request "reap everything" is sent either after it has taken the main result, or while the result
 	// channel has room for it (the wait goroutine delivers the main result before it looks at requests again)
 	checkNoCircularWait(c, "9/no-circular-wait")
+
+	// a handler learns "reply sent" only after the sender goroutine has written it: what the handler does next
+	// (release the files that travel with the reply, serve the next command) must not overtake the write
+	checkReplyAcknowledged(c, "10/reply-written-before-success")
+	// failures of one call leave nothing behind in the init (descriptors of the sync pair: C12.2), and an open
+	// cannot block the single request loop on an object the program planted (regular files only: C14.1)
+	importObs(c, "C12", "C12.2/descriptor-pairing", "11/failed-launch-leaves-nothing", nil)
+	importObs(c, "C14", "C14.1/container-open", "12/open-cannot-block", func(o Obligation) bool {
+		return strings.Contains(o.Key, ":accept@") || strings.Contains(o.Key, ":pre-check")
+	})
+	c.Expect("12/open-cannot-block", 2)
+}
+
+func checkReplyAcknowledged(c *Check, rule string) {
+	p := c.P
+	n := 0
+	for _, fn := range p.PkgFuncs("container") {
+		if fn.Signature.Recv() == nil || !strings.HasSuffix(fn.Signature.Recv().Type().String(), "container.containerServer") {
+			continue
+		}
+		for _, b := range fn.Blocks {
+			for _, in := range b.Instrs {
+				sel, ok := in.(*ssa.Select)
+				if !ok {
+					continue
+				}
+				for _, st := range sel.States {
+					if st.Dir != types.SendOnly || !strings.HasSuffix(describe(st.Chan), ".sendCh") {
+						continue
+					}
+					n++
+					key := "container." + fn.Name() + ":queued-reply"
+					// the acknowledgement channel travelling with the reply
+					var ack ssa.Value
+					if u, ok := st.Send.(*ssa.UnOp); ok {
+						if a, ok := u.X.(*ssa.Alloc); ok && a.Referrers() != nil {
+							for _, r := range *a.Referrers() {
+								if fa, ok := r.(*ssa.FieldAddr); ok && fa.Referrers() != nil {
+									if _, isChan := derefType(fa.Type()).Underlying().(*types.Chan); !isChan {
+										continue
+									}
+									for _, r2 := range *fa.Referrers() {
+										if s2, ok := r2.(*ssa.Store); ok {
+											ack = s2.Val
+										}
+									}
+								}
+							}
+						}
+					}
+					if ack == nil {
+						c.Fail(rule, key, p.Pos(sel.Pos()), "the queued reply carries no acknowledgement channel: the handler continues (releases the reply's files, serves the next command) before the sender goroutine has written the reply")
+						continue
+					}
+					isAck := func(in2 ssa.Instruction) bool {
+						switch x := in2.(type) {
+						case *ssa.Select:
+							for _, s2 := range x.States {
+								if s2.Dir == types.RecvOnly && s2.Chan == ack {
+									return true
+								}
+							}
+						case *ssa.UnOp:
+							return x.Op == token.ARROW && x.X == ack
+						}
+						return false
+					}
+					isNilRet := func(in2 ssa.Instruction) bool {
+						ret, ok := in2.(*ssa.Return)
+						return ok && len(ret.Results) > 0 && isNilConst(retVal(ret, len(ret.Results)-1))
+					}
+					early, trail := pathQuery{fn: fn, from: sel, target: isNilRet, stop: isAck}.find()
+					c.Cond(!early, rule, key, p.Pos(sel.Pos()), "success is returned only after the sender acknowledged the write",
+						"success is returned without waiting for the sender goroutine ("+p.trail(trail)+"): the handler may release the descriptors that travel with the reply before they were sent")
+				}
+			}
+		}
+	}
+	if n == 0 {
+		c.Undecided(rule, "container:queued-reply", "-", "no reply is queued for a sender goroutine")
+	}
+	c.Expect(rule, 1)
 }
 
 func lastCall(trace []string) string {
